@@ -379,3 +379,161 @@ def check_c03(result, ex, clause="close"):
         if items != ex["opposite"][:len(items)] or log[len(items):] != [["eof"]]:
             raise Violation(f"{clause}.closer-view", f"{where}: the closing side's own receiver saw {log[-4:]} "
                             f"(must be a prefix of the {len(ex['opposite'])} items sent to it, then EOFError)")
+
+
+# =============================================================================================
+# C07: remote failures surface as RemoteError on that channel only
+# =============================================================================================
+
+
+def c07_params():
+    return st.fixed_dictionaries(dict(
+        kind=st.sampled_from(["b_raises", "b_raises", "cb_a", "cb_b"]),
+        items=st.lists(payloads(), max_size=5),      # b_raises: sent before the raise; cb_*: all items sent to the callback
+        raise_at=st.integers(0, 4),
+        consumer=st.sampled_from(["recv", "waitclose_first", "both"]),
+        chan=st.sampled_from(["main", "sub_a", "sub_b"]),
+        dropped=st.booleans(),
+        endmarker=st.booleans(),
+        wrap=st.sampled_from(["bare", "list", "dict"]),
+    )).map(_c07_normalise)
+
+
+def _c07_normalise(p):
+    p = dict(p)
+    if p["kind"] == "b_raises":
+        p["chan"], p["dropped"] = "main", False
+    else:
+        if not p["items"]:
+            p["items"] = [0]
+        p["raise_at"] = min(p["raise_at"], len(p["items"]) - 1)
+        if p["chan"] == "main":
+            p["dropped"] = False  # the exec channel is referenced by the executing frame on B; A keeps it for the oracle
+    return p
+
+
+def c07_conversation(conv, p):
+    ch = "main" if p["chan"] == "main" else "sub"
+    a_pre, b_pre = [], []
+    if p["chan"] == "sub_a":
+        a_pre = [["newchannel", "sub"], ["send_chan", "main", "sub", p["wrap"]]]
+        b_pre = [["recv_chan", "main", "sub"]]
+    elif p["chan"] == "sub_b":
+        b_pre = [["newchannel", "sub"], ["send_chan", "main", "sub", p["wrap"]]]
+        a_pre = [["recv_chan", "main", "sub"]]
+
+    def observe(kind):
+        """ops of the side that must *see* the RemoteError"""
+        if kind == "recv":
+            return [["recv_until", ch, 2]]
+        if kind == "waitclose_first":
+            return [["waitclose", ch], ["recv_until", ch, 2]]
+        return [["spawn", "wc", [["waitclose", ch]]], ["recv_until", ch, 2], ["join", "wc"]]
+
+    if p["kind"] == "b_raises":
+        items = [tag_item(conv, "b2a", 0, k, pl) for k, pl in enumerate(p["items"])]
+        b_ops = [["send", "main", it] for it in items] + [["raise", f"boom-{conv}"]]
+        a_ops = [["remote_exec", "main", b_ops]] + observe(p["consumer"]) + [["isclosed", "main"]]
+        expect = dict(conv=conv, kind="b_raises", observer="a", ch="main", sent=[fp_of(i) for i in items],
+                      needle=f"boom-{conv}", consumer=p["consumer"])
+        return a_ops, expect
+    owner, sender = ("a", "b") if p["kind"] == "cb_a" else ("b", "a")
+    d = f"{sender}2{owner}"
+    items = [tag_item(conv, d, 0, k, pl) for k, pl in enumerate(p["items"])]
+    cbkey = f"{owner}:{conv}:cb"
+    owner_ops = [["setcallback", ch, cbkey, p["endmarker"], p["raise_at"]], ["set", "cb-ready"]]
+    if p["dropped"]:
+        owner_ops += [["drop", ch]]
+    else:
+        owner_ops += [["waitclose", ch], ["isclosed", ch]]
+    sender_ops = [["send", ch, it] for it in items] + observe(p["consumer"])
+    # the sender starts only after the callback is registered: items that are already queued at registration time are
+    # replayed to the callback in the *registering* thread, where a raising callback simply propagates to the caller
+    # of setcallback() - ordinary Python semantics, not the error path this property is about.  The go-ahead travels
+    # over the exec channel in the direction owner -> sender (the opposite of the data).
+    if owner == "a":
+        a_body = owner_ops[:2] + [["send", "main", "go"]] + owner_ops[2:]
+        b_body = [["recv", "main", 1]] + sender_ops
+    else:
+        b_body = owner_ops[:2] + [["send", "main", "go"]] + owner_ops[2:]
+        a_body = [["recv", "main", 1]] + sender_ops
+    b_ops = b_pre + b_body
+    a_ops = [["remote_exec", "main", b_ops]] + a_pre + a_body
+    if ch != "main":
+        a_ops += [["waitclose", "main"]]
+    expect = dict(conv=conv, kind=p["kind"], observer=sender, owner=owner, ch=ch, sent=[fp_of(i) for i in items],
+                  needle=f"cb-boom-{p['raise_at']}", raise_at=p["raise_at"], consumer=p["consumer"], cbkey=cbkey,
+                  endmarker=p["endmarker"], dropped=p["dropped"])
+    return a_ops, expect
+
+
+def build_c07_program(param_list, siblings):
+    convs, expects, sib_expects = [], [], []
+    for k, p in enumerate(param_list):
+        a_ops, ex = c07_conversation(k, p)
+        convs.append({"id": k, "a": a_ops})
+        expects.append(ex)
+    for j, sp in enumerate(siblings):
+        k = len(param_list) + j
+        a_ops, _, ex = c02_conversation(k, sp)
+        convs.append({"id": k, "a": a_ops})
+        sib_expects += ex
+    return {"convs": convs}, expects, sib_expects
+
+
+def check_c07(result, ex, clause="error"):
+    conv, obs = ex["conv"], ex["observer"]
+    where = f"conv {conv} ({ex['kind']} on {ex['ch']})"
+    olog_all = result[obs] or {}
+    main = olog_all.get(f"{obs}:{conv}:main", [])
+    wc = olog_all.get(f"{obs}:{conv}:wc", [])
+    outcomes = [e for e in main if e[0] in ("item", "eof", "remote_error", "timeout", "exc", "oserror")]
+    errs = [e for e in main + wc if "remote_error" in e[:3]]
+    bad = [e for e in main + wc if e[0] in ("timeout", "exc") or (e[0] == "waitclose" and len(e) > 2 and e[2] in ("timeout", "exc"))]
+    if bad:
+        raise Violation(f"{clause}.unexpected-outcome", f"{where}: observer saw {bad[:2]}")
+    if ex.get("dropped"):
+        # dropping a channel that has a callback puts the peer into the documented "sendonly" state: its receivers
+        # were already woken with EOFError when the drop arrived, a later callback failure can only be reported as a
+        # warning on the peer.  What is asserted for this case: the callback log, the siblings, the gateway.
+        if len(errs) > 1:
+            raise Violation(f"{clause}.not-exactly-once", f"{where}: RemoteError surfaced {len(errs)} times")
+    elif len(errs) != 1:
+        raise Violation(f"{clause}.not-exactly-once", f"{where}: RemoteError surfaced {len(errs)} times on the peer "
+                        f"(receive outcomes {[e[0] for e in outcomes]}, waitclose {[e[2:3] for e in main + wc if e[0] == 'waitclose']})")
+    text = errs[0][-1] if errs else None
+    for needle in (ex["needle"], "ValueError", "Traceback") if errs else ():
+        if needle not in text:
+            raise Violation(f"{clause}.text", f"{where}: RemoteError text lacks {needle!r}: {text[:300]!r}")
+    if ex["kind"] == "b_raises":
+        items = [e[1] for e in outcomes if e[0] == "item"]
+        if items != ex["sent"]:
+            raise Violation(f"{clause}.items-before-error", f"{where}: {len(ex['sent'])} items were sent before the raise, "
+                            f"the peer received seqs {_seqs(items)}")
+        kinds = [e[0] for e in outcomes]
+        # all items first, then (unless waitclose consumed it) the error, then EOFError only
+        after = kinds[len(items):]
+        if [k for k in after if k not in ("remote_error", "eof")] or "item" in after:
+            raise Violation(f"{clause}.order", f"{where}: outcomes after the data: {after}")
+        if "remote_error" in after and after[0] != "remote_error":
+            raise Violation(f"{clause}.order", f"{where}: EOFError before the RemoteError: {after}")
+        if ["isclosed", True] not in main:
+            raise Violation(f"{clause}.not-closed", f"{where}: channel not closed after the failure")
+        return
+    # callback kinds: what the callback saw, and the state of the failing side's own channel
+    owner = ex["owner"]
+    ologs = result[owner] or {}
+    cb = ologs.get(ex["cbkey"], [])
+    want = [["item", fp] for fp in ex["sent"][: ex["raise_at"] + 1]] + ([["endmarker"]] if ex["endmarker"] else [])
+    if cb != want:
+        raise Violation(f"{clause}.callback-log", f"{where}: callback raised at item {ex['raise_at']}; it was called with "
+                        f"{[e[0] if e[0] != 'item' else _seqs([e[1]])[0] for e in cb]}, expected items 0..{ex['raise_at']}"
+                        f"{' + endmarker' if ex['endmarker'] else ''}")
+    if not ex["dropped"]:
+        omain = ologs.get(f"{owner}:{conv}:main", [])
+        w = [e for e in omain if e[0] == "waitclose" and e[1] == ex["ch"]]
+        if not w or w[0][2] != "remote_error" or ex["needle"] not in w[0][3]:
+            raise Violation(f"{clause}.own-channel", f"{where}: the failing side's own waitclose gave "
+                            f"{[x[2:4] for x in w]} instead of a RemoteError naming the callback failure")
+        if ["isclosed", True] not in omain:
+            raise Violation(f"{clause}.own-channel-open", f"{where}: the failing side's own channel is not closed")
